@@ -5,6 +5,8 @@ import (
 	"go/ast"
 	"sort"
 	"strings"
+
+	"pigeonverif/internal/variants"
 )
 
 // C17 — invalid UTF-8 is reported by default and matched bytewise when allowed.
@@ -71,6 +73,8 @@ func C17(c *Ctx) {
 			}
 		}
 		r.Check(len(ws) == 0, "C17-b", "T.parser.data:never-written", vn, "builder/static_code.go", "no store to p.data; flag written only by its option", "stores: "+strings.Join(ws, ","))
+		// matchers decide on the decoded rune only: the raw input is read by read() and sliceFrom() alone
+		dataReaders(c, a.V, "C17-b")
 		// ---- c
 		c01e2(c, a, "C17-c")
 		// ---- d: readers of the flag
@@ -116,5 +120,39 @@ func c01e2(c *Ctx, a *absVariant, rule string) {
 		} else {
 			r.Ok(rule, "T."+fn+":no-read-at-EOF", a.V.Name, w, fmt.Sprintf("%d read events, all under not-EOF", n))
 		}
+	}
+}
+
+// dataReaders: p.data may be read only where runes are decoded (read) and where values are sliced (sliceFrom).
+func dataReaders(c *Ctx, v *variants.Variant, rule string) {
+	r := c.R
+	var bad []string
+	n := 0
+	for _, f := range v.Funcs() {
+		if f.Body == nil {
+			continue
+		}
+		ast.Inspect(f.Body, func(nd ast.Node) bool {
+			s, ok := nd.(*ast.SelectorExpr)
+			if !ok || s.Sel.Name != "data" {
+				return true
+			}
+			if t := v.Info.TypeOf(s.X); t == nil || namedOf(t) != "parser" {
+				return true
+			}
+			n++
+			switch f.Name.Name {
+			case "read", "sliceFrom":
+			default:
+				bad = append(bad, v.Where(s.Pos())+": "+f.Name.Name+" reads the raw input bytes: matching must be decided on the decoded rune (an invalid byte is the rune U+FFFD, whose UTF-8 encoding differs from the byte in the input)")
+			}
+			return true
+		})
+	}
+	sort.Strings(bad)
+	if len(bad) > 0 {
+		r.Bad(rule, "T.parser.data:readers", v.Name, "builder/static_code.go", bad[0])
+	} else {
+		r.Ok(rule, "T.parser.data:readers", v.Name, "builder/static_code.go", fmt.Sprintf("%d reads, all in read()/sliceFrom()", n))
 	}
 }
